@@ -328,7 +328,7 @@ def thread_workload(ctx):
     res = ctx.res
     r = ctx.rng("threads")
     nthreads = r.choice([6, 8]) if ctx.quick else r.choice([8, 12, 16])
-    rounds = 1 if ctx.quick else 3
+    rounds = 1 if ctx.quick else 2
     # documents: per-thread distinct (distinct comments and versions) + one shared
     shared_nodes = gen.gen_document(r, gen.GenOpts(gated=ctx.gated, p_key=0.4, dup=0.0), root="map")
     shared = render.render(shared_nodes).text
